@@ -64,17 +64,6 @@ def check(ctx, run):
         pe = prog.fn(CLS + "::printEscaped")
         run.analysed(pe)
         pname = pe.params[0]["name"]
-        # loop head: block whose condition is *s
-        head = None
-        for b in pe.blocks.values():
-            if b.get("cond") is not None and len(b["succ"]) == 2 and b["id"] in loop_blocks(pe):
-                key, pol = atom(pe, pe.nodes[b["cond"]])
-                if key == "*" + pname:
-                    head = b
-        if head is None:
-            raise AnalysisBroken("printEscaped: loop on *%s not found" % pname)
-        body_entry = head["succ"][0]
-        # local buffers and their extents
         extents = {}
         for n in pe.walk():
             if n["k"] == "DeclStmt":
@@ -83,56 +72,74 @@ def check(ctx, run):
                     if t.get("k") == "array":
                         extents[d["name"]] = t["extent"]
         special = {ord("'"): "|'", ord("|"): "||", ord("["): "|[", ord("]"): "|]", ord("\n"): "|n", ord("\r"): "|r"}
-        for cv in list(range(-128, 0)) + list(range(1, 128)):
-            ev = Evaluator(prog, pe, env={"*" + pname: cv, pname: 1000})
-            snaps = []
 
-            def pb(*a, ev=ev, snaps=snaps):
-                snaps.append(dict(ev.env))
+        def fold_escape(chars):
+            """printEscaped folded on the NUL-terminated string `chars` (signed char values): the text handed to printBuffer"""
+            env = {pname: ("ptr", "S", 0)}
+            for i_, c_ in enumerate(list(chars) + [0]):
+                env["S[%d]" % i_] = c_
+            out, problems = [], []
+
+            def pb(ev_, *a_):
+                v = a_[-1]
+                if not (isinstance(v, tuple) and v[0] == "ptr"):
+                    problems.append("printBuffer receives %s" % (v,))
+                    return 0
+                i_, s_ = v[2], ""
+                while True:
+                    cell = ev_.env.get("%s[%d]" % (v[1], i_))
+                    if cell is None:
+                        problems.append("buffer byte %d printed uninitialised (no terminator written)" % i_)
+                        break
+                    if cell == 0:
+                        break
+                    s_ += chr(cell & 0xff)
+                    i_ += 1
+                    if i_ > 4096:
+                        break
+                out.append(s_)
                 return 0
-            for pc in PRINT_CLASSES:
-                ev.calls[pc + "::printBuffer"] = pb
-            ok, why, wit = True, "", None
+            pb.wants_ev = True
+            ev = Evaluator(prog, pe, env=env, calls={pc + "::printBuffer": pb for pc in PRINT_CLASSES})
+            ev.run_blocks(pe.entry, max_steps=20000)
+            for key, v in ev.stores:
+                m = re.match(r"(\w+)\[(-?\d+)\]$", key)
+                if m and m.group(1) in extents and not (0 <= int(m.group(2)) < extents[m.group(1)]):
+                    problems.append("write to %s outside its extent %d" % (key, extents[m.group(1)]))
+            return "".join(out), problems
+
+        def expected(chars):
+            return "".join(special.get(c_, chr(c_ & 0xff)) for c_ in chars)
+        for cv in list(range(-128, 0)) + list(range(1, 128)):
             try:
-                end, visited = ev.run_blocks(body_entry, stop_blocks={head["id"]})
+                got, problems = fold_escape([cv])
             except Unknown as u:
-                # the escaper is not in the per-character form this rule can fold: undecided, never an alarm
-                raise AnalysisBroken("printEscaped: cannot fold the loop body per character (%s); the escaper was restructured beyond the idiom R2 decides" % u)
-            if ok:
-                # what was printed
-                out = []
-                for snap, (nm, args, node) in zip(snaps, [t for t in ev.trace if t[0] and t[0].endswith("printBuffer")]):
-                    buf = render(pe, pe.args(node)[0])
-                    i = 0
-                    s = ""
-                    while True:
-                        v = snap.get("%s[%d]" % (buf, i))
-                        if v is None:
-                            ok, why = False, "buffer byte %d printed uninitialised (no terminator written)" % i
-                            break
-                        if v == 0:
-                            break
-                        s += chr(v & 0xff)
-                        i += 1
-                        if i > 8:
-                            break
-                    out.append(s)
-                for key, v in ev.stores:
-                    m = re.match(r"(\w+)\[(-?\d+)\]$", key)
-                    if m and m.group(1) in extents and not (0 <= int(m.group(2)) < extents[m.group(1)]):
-                        ok, why = False, "write to %s outside its extent %d" % (key, extents[m.group(1)])
-                got = "".join(out)
-                exp = special.get(cv, chr(cv & 0xff))
-                wit = {"char": cv, "emitted": got, "expected": exp}
-                if ok and got != exp:
-                    ok, why = False, "char %d is emitted as %r, TeamCity rules require %r" % (cv, got, exp)
-                if ok and end != head["id"]:
-                    ok, why = False, "loop body does not return to the loop head"
-                # the pointer advances exactly once
-                adv = [k for k, v in ev.stores if k == pname]
-                if ok and len(adv) != 1:
-                    ok, why = False, "input pointer advanced %d times in one iteration" % len(adv)
-            run.ob("R2", "char value %d" % cv, pe.site, ok, witness=wit, what=why)
+                oob = re.search(r"(?:^|[ :])(S\[-?\d+\])$", str(u))
+                if oob:
+                    run.ob("R2", "char value %d" % cv, pe.site, False, what="the escaper reads %s, behind the terminating NUL of its input" % oob.group(1))
+                    continue
+                # the escaper is in a form this rule cannot fold: undecided, never an alarm
+                raise AnalysisBroken("printEscaped cannot be folded (%s)" % u)
+            exp = expected([cv])
+            why = problems[0] if problems else ("" if got == exp else "char %d is emitted as %r, TeamCity rules require %r" % (cv, got, exp))
+            run.ob("R2", "char value %d" % cv, pe.site, not why, witness={"char": cv, "emitted": got, "expected": exp}, what=why)
+        # strings: every pair of classes next to each other, the empty string, and runs longer than any local buffer
+        reps = [ord("a"), ord("'"), ord("|"), ord("["), ord("]"), 10, 13, -23]
+        longest = max(extents.values()) if extents else 8
+        strs = [[]] + [[a_, b_] for a_ in reps for b_ in reps] + [[ord("x")] * (longest + 3), [ord("x")] * (longest - 1) + [10], [ord("x")] * longest + [ord("|")] + [ord("y")] * (2 * longest + 1), [10] * (longest + 2)]
+        bad = None
+        try:
+            for st_ in strs:
+                got, problems = fold_escape(st_)
+                if (problems or got != expected(st_)) and bad is None:
+                    bad = problems[0] if problems else "%r is emitted as %r, TeamCity rules require %r" % ("".join(chr(c_ & 0xff) for c_ in st_), got, expected(st_))
+        except Unknown as u:
+            oob = re.search(r"(?:^|[ :])(S\[-?\d+\])$", str(u))
+            if oob:
+                bad = "the escaper reads %s, behind the terminating NUL of its input" % oob.group(1)
+            else:
+                raise AnalysisBroken("printEscaped cannot be folded on strings (%s)" % u)
+        run.ob("R2", "strings: the empty string, every pair of character classes, runs longer than any local buffer (%d strings)" % len(strs), pe.site, bad is None, witness=bad or "ok", what=bad or "")
 
     guarded(run, r2)
 
